@@ -6,6 +6,7 @@ every system execution, pick, shuffle order, position, component value and colle
 SHA-256 is the digest. The workload itself never iterates a set or hashes a string into an order."""
 import hashlib
 import json
+import random
 
 from ECAgent.Collectors import AgentCollector, Collector
 from ECAgent.Core import Agent, Component, Model, System
@@ -148,8 +149,17 @@ SYSTEMS = {"transfer": (Transfer, 4), "shuffle": (ShuffleUpdate, 3), "move": (Mo
 
 
 class ChaosModel(Model):
+    SEEDING = "ctor"      # how the model's generator gets its seed (see the subclasses below): the stream is the same
+
     def __init__(self, seed, cfg):
-        super().__init__(seed=seed)
+        if self.SEEDING == "ctor":
+            super().__init__(seed=seed)
+        elif self.SEEDING == "late_seed":
+            super().__init__()
+            self.random.seed(seed)                  # the public generator seeded after the base constructor ran
+        else:
+            super().__init__()
+            self.random = random.Random(seed)       # ... or replaced by a generator of the user's
         self.seed_used = seed
         self.cfg_key = cfg if isinstance(cfg, str) else json.dumps(cfg, sort_keys=True)
         self.cfg = json.loads(cfg) if isinstance(cfg, str) else cfg
@@ -235,6 +245,14 @@ class KwChaosModel(ChaosModel):
 
     def __init__(self, cfg, *, seed=None):
         super().__init__(seed, cfg)
+
+
+class LateSeedChaosModel(ChaosModel):
+    SEEDING = "late_seed"
+
+
+class OwnGeneratorChaosModel(ChaosModel):
+    SEEDING = "replace"
 
 
 def gen_cfg(rng, tier="quick"):
